@@ -139,6 +139,22 @@ func (k c03) Run(c *rt.Ctx) {
 			stmt.HasLim, stmt.Start, stmt.Count = true, r.Intn(3), r.Range(1, 9)
 		}
 		query = stmt.Text(gen.Plain)
+	} else if c.Case%24 == 19 {
+		// two fields under one name, the name used elsewhere: every column shows its own expression
+		c.Rec.Inc("duplicate_names_used_elsewhere")
+		var ps []refstore.Pair
+		for i, n := 0, r.Range(3, 40); i < n; i++ {
+			ps = append(ps, refstore.Pair{K: fmt.Sprintf("k%02d", i), V: fmt.Sprintf("v%d", (i*7)%11)})
+		}
+		st = &gen.Store{Family: "dupnames", Pairs: refstore.New(ps).Pairs()}
+		query = []string{
+			"select key as a, upper(a) as b, value as a where key ^= 'k'",
+			"select key as a, value as a where a ^= 'k0'",
+			"select value as a, a + '!' as b, key as a, strlen(value) as a where key ^= 'k' & a != 'v3'",
+			"select strlen(key) as n, n + 1 as m, strlen(value) as n where value != 'v0'",
+			"select key as a, value as a, lower(a) as c where a != 'k01' order by c desc",
+		}[r.Intn(5)]
+		stmt = &gen.Stmt{Kind: "select", Where: gen.Bin("^=", gen.Key(), gen.Str("k")), Fields: []gen.Field{{E: gen.Key()}}}
 	} else if c.Case%24 == 17 {
 		// BETWEEN bounds that coincide, as constants or on some pairs only: a run-time error in
 		// both modes or in neither
@@ -318,6 +334,11 @@ func (k c03) Run(c *rt.Ctx) {
 	}
 	hit := k.judge(c, stmt, query, st.Pairs, sizes, "")
 	if hit == "" {
+		return
+	}
+	if st.Family == "dupnames" {
+		// written as text (the statement tree is a stand-in): reported as written
+		k.judge(c, stmt, query, st.Pairs, sizes, query)
 		return
 	}
 	// shrink (clustering only)
